@@ -215,6 +215,12 @@ whose `AllowFailure` differs from the executed task's. The unrepaired code passe
 def stopOnAllowFailureChange (t : Task) : Option (Task → Bool) :=
   some (fun tsk => tsk.allowFailure != t.allowFailure)
 
+/-- Variant for the merge with the C06 repair (group g3), which adds one more condition to the same
+closure: a following Synchronization task with `executeHookOnSynchronization: false` is not merged
+either. Not used by the drivers until that change is in the tree. -/
+def stopOnAllowFailureChangeOrSkippedSync (t : Task) : Option (Task → Bool) :=
+  some (fun tsk => (tsk.isSync && !tsk.execOnSync) || tsk.allowFailure != t.allowFailure)
+
 /-- The part of `taskHandleHookRun` before the hook is run: returns the task as it is executed
 (contexts and monitor ids replaced by the combine result) and the queue set. -/
 def prepareRun (stopOf : Task → Option (Task → Bool)) (version : Nat) (qs : QSet) (t : Task)
